@@ -45,18 +45,18 @@ def run(tier):
         vf.rm(r.dir)
     # catalogue-level up/down for MySQL / PostgreSQL
     cat = {"plans": 0, "bad": 0}
-    for args in (["-n", "2", "-roles", "all", "-updown"], ["-n", "3", "-roles", "all", "-updown"] + (["-sample", "0.2"] if tier == "quick" else [])):
+    for args in (["-checks"], ["-n", "2", "-roles", "all", "-updown"], ["-n", "3", "-roles", "all", "-updown"] + (["-sample", "0.2"] if tier == "quick" else [])):
         dd, tr, cases, _ = plancat.record(args)
         try:
             per, ev = plancat.validate(tr)
             byid = {c["id"]: c for c in cases}
-            cat["plans"] += sum(1 for c in cases if c["dir"] == "updown")
+            cat["plans"] += sum(1 for c in cases if c["dir"] in ("updown", "checks-updown"))
             for cid, names in sorted(per.items()):
                 c = byid[cid]
-                if c["dir"] != "updown":
+                if c["dir"] not in ("updown", "checks-updown"):
                     continue
                 cat["bad"] += 1
-                case = plancat.shape(c)
+                case = plancat.shape(c) if c["dir"] == "updown" else {"dialect": c["dialect"], "scenario": c["roles"], "dir": c["dir"]}
                 case.update({"part": "catalog-updown", "first_violation": names[0]})
                 v.violation(case, {"violated": names, "statements": c.get("stmts")})
         finally:
